@@ -222,6 +222,10 @@ let spec input obs =
     let bad_loc = Stdlib.List.find_opt (fun l -> l <> "ok" && l <> "")
         (Stdlib.List.concat_map (fun x -> if starts "locs:" x then split_on '/' (after "locs:" x) else []) sc.h.extras) in
     if bad_loc <> None then "FAIL reader-locator-build-failed " ^ (match bad_loc with Some v -> v | None -> "") else
+    (* what GET chain/tip/longest answered to the reader (realised): a header labelled LONGEST_CHAIN *)
+    let bad_api = Stdlib.List.find_opt (fun l -> l <> "ok" && l <> "")
+        (Stdlib.List.concat_map (fun x -> if starts "apitips:" x then split_on '/' (after "apitips:" x) else []) sc.h.extras) in
+    if bad_api <> None then "FAIL api-tip-not-labelled-longest " ^ (match bad_api with Some v -> v | None -> "") else
     let want_ca = Stdlib.String.concat "," (ca_expected sc) in
     if cas <> want_ca then Printf.sprintf "FAIL reader-common-ancestor-wrong got %s want %s" cas want_ca else
     let ev_bad = Stdlib.List.filter (fun e -> match split_on '=' e with
